@@ -33,6 +33,9 @@ pub struct NodeState {
     pub nat_permille: u64,
     /// Prepared statement cache: id -> statement text.
     pub prepared: BTreeMap<Vec<u8>, String>,
+    /// Until this virtual instant the node answers every system-table read with a server
+    /// error (connections stay healthy, keep-alives are answered).
+    pub system_queries_fail_until: u64,
 }
 
 #[derive(Debug, Clone)]
@@ -178,6 +181,7 @@ impl Cluster {
             shard_aware_port_open: true,
             nat_permille: 0,
             prepared: BTreeMap::new(),
+            system_queries_fail_until: 0,
         });
         id
     }
@@ -1059,6 +1063,11 @@ fn system_query(
     delay: u64,
 ) {
     let conn = rq.conn;
+    if w.now() < w.cluster.nodes[rq.node].system_queries_fail_until {
+        w.probe("system_query_failed");
+        w.respond_error(conn, rq.stream, err::SERVER_ERROR, "metadata subsystem unavailable", &[], delay);
+        return;
+    }
     let (cols, rows) = match system_table(w, rq.node, text) {
         Ok(x) => x,
         Err(msg) => {
